@@ -417,7 +417,7 @@ func (ex *explorer) run(cs *exCase) (viol []exec.Violation) {
 			if err := rd.tx.Rollback(); err != nil {
 				ex.r.Fail("rollback", "%s: reader Rollback: %v", when, err)
 			}
-		case "WC", "WR", "WF":
+		case "WC", "WR", "WF", "WM":
 			batch := cs.Batches[nextBatch%len(cs.Batches)]
 			nextBatch++
 			sit := fmt.Sprintf("readers[%s] %s", ex.readerPattern(), ev.K)
@@ -461,9 +461,18 @@ func (ex *explorer) run(cs *exCase) (viol []exec.Violation) {
 					return
 				}
 				ex.st.Rollbacks++
-			case "WF":
+			case "WF", "WM":
 				nf := len(ex.r.FaultLog)
-				if ex.r.Exec(&gen.Step{Op: "commit", How: fmt.Sprintf("fail:%d", 1+ev.A)}) {
+				how := fmt.Sprintf("fail:%d", 1+ev.A)
+				if ev.K == "WM" {
+					// one more value that no run of free pages can hold, then a commit under an unsatisfiable size limit
+					how = "maxsize"
+					if ex.r.Exec(&gen.Step{Op: "put", P: []int{0}, K: &gen.K{ID: 900 + ev.A%3}, V: &gen.V{Seed: uint32(ev.A)*7919 + uint32(nextBatch), Len: (120 + 10*(ev.A%5)) * ex.ps}}) {
+						ex.collect()
+						return
+					}
+				}
+				if ex.r.Exec(&gen.Step{Op: "commit", How: how}) {
 					ex.collect()
 					return
 				}
@@ -690,6 +699,13 @@ func explorerCases(seed int64, enumLen int, nRandom int, lenLo, lenHi int) []*ex
 		// two warm-up commits so that there are free pages to recycle
 		full := append([]exEvent{{K: "WC"}, {K: "WC"}}, evs...)
 		for k := range full {
+			if full[k].K == "WF" {
+				// which I/O call of the commit fails (1..6), and every third failing commit is a size-limit rejection instead
+				full[k].A = (i/len(cfgs) + 2*k) % 6
+				if (i/len(cfgs)+k)%3 == 0 {
+					full[k].K = "WM"
+				}
+			}
 			if full[k].K == "RO" {
 				full[k].A = (i/len(cfgs) + k) % 4 // reopen variants: same options, other backend, other freelist-sync mode, both
 			}
@@ -705,7 +721,7 @@ func explorerCases(seed int64, enumLen int, nRandom int, lenLo, lenHi int) []*ex
 		n := lenLo + r.Intn(lenHi-lenLo+1)
 		evs := []exEvent{{K: "WC"}}
 		for j := 0; j < n; j++ {
-			ks := []string{"R+", "R+", "R-o", "R-n", "R-r", "WC", "WC", "WC", "WR", "WF", "RO"}
+			ks := []string{"R+", "R+", "R-o", "R-n", "R-r", "WC", "WC", "WC", "WR", "WF", "WM", "RO"}
 			evs = append(evs, exEvent{K: ks[r.Intn(len(ks))], A: r.Intn(14)})
 		}
 		out = append(out, &exCase{Name: "random", Seed: seed, Case: ci, Opts: o, Batches: explorerBatches(r, o.PageSize, 10), Events: evs})
